@@ -290,7 +290,7 @@ func ruleR05e(c *Ctx) {
 			return s
 		},
 		Edge: func(pc *PathCtx, s uint64, from *ssa.BasicBlock, si int) (uint64, bool) {
-			for _, f := range edgeFacts(from, si) {
+			for _, f := range pc.edgeFacts(from, si) {
 				if call, idx := resultOf(f.X); call != nil && idx == 0 && isCallTo(call, m.getLastTx) && isNilConst(f.Y) && f.Eq {
 					s |= noTx
 				}
